@@ -1198,7 +1198,69 @@ class SequenceRangeCheck(Contract):
         return [('WcParse._sequence_range_check.a_range_is_kept_iff_its_end_is_not_below_its_start_(escaped_spellings_count_as_the_character);a_reversed_one_is_removed_with_its_hyphen', ('C01', 'C10'), post)]
 
 
-ALL_SEQ = [SequenceRangeCheck()]
+class HandlePosix(Contract):
+    r"""WcParse._handle_posix(i, result, end_range): True iff `[:name:]` of one of the POSIX class names stands at the index (the index then moves behind it, otherwise
+    it stays); on a match the class text of THAT name for the parser's string type is appended, and a hyphen that was waiting to become a range (end_range set and
+    reached) is escaped first - a range cannot end in a class."""
+    module, qual, props = '_wcparse', 'WcParse._handle_posix', ('C01', 'C18', 'C10')
+    forking = ('i.match',)
+
+    def inputs(self):
+        self.s, self.i0, self.er = z3.String('i__string'), z3.Int('i__index'), z3.Int('end_range')
+        self.last = z3.String('result[-1]')
+        self.isb = z3.Bool('self_is_bytes')
+        return dict(params=dict(self=selfobj(), i=ObjV(z3.Const('i', Obj)), result=V('tuple', None, items=[Str(self.last)]), end_range=Int(self.er)), fields=dict(is_bytes=Bool(self.isb)),
+                    pre=[self.i0 >= 0, self.i0 <= z3.Length(self.s), self.er >= 0], ghost={'$idx': self.i0, '$set': None, '$app': [], '$m': None})
+
+    @property
+    def hooks(self):
+        me = self
+
+        def h_match(eng, node, st, args):
+            idx = st.ghost['$idx']
+            hit = z3.Bool(pyvc.fresh('posix_class_here'))
+            end = z3.Int(pyvc.fresh('m_end'))
+            mobj = ObjV(z3.Const(pyvc.fresh('match'), Obj))
+            rx = args[0]
+
+            def upd(s2):
+                s2.pc += [pyvc.truthy(mobj), end > idx, end <= z3.Length(me.s)]
+                s2.ghost['$idx'] = end
+                s2.ghost['$m'] = (rx, hit)
+            st.ghost['$rx'] = rx
+            return Fork([(hit, mobj, upd), (z3.Not(hit), NONE, None)])
+
+        def h_setitem(eng, target, st, val):
+            st.ghost['$set'] = (eng.ev(target.slice, st), val)
+
+        def h_append(eng, node, st, args):
+            st.ghost['$app'] = st.ghost['$app'] + [args[0]]
+            return NONE
+        return {'i.match': h_match, 'i.index': lambda eng, node, st, args: Int(st.ghost['$idx']), 'setitem': h_setitem, 'result.append': h_append,
+                '.group': lambda eng, node, st, args: U('posix_name', *args), 'posix.get_posix_property': lambda eng, node, st, args: U('POSIX_PROPERTY', *args)}
+
+    @property
+    def ensures(self):
+        me = self
+
+        def post(c):
+            m, st_, app, idx = c.st.ghost['$m'], c.st.ghost['$set'], c.st.ghost['$app'], c.st.ghost['$idx']
+            rx_ok = pyvc.to_obj(c.st.ghost['$rx']) == z3.Const('global:RE_POSIX', Obj) if c.st.ghost.get('$rx') is not None else z3.BoolVal(False)
+            if m is None:
+                return z3.And(rx_ok, z3.Not(T(c.ret)), idx == me.i0, z3.BoolVal(st_ is None and not app))
+            pending = z3.And(me.er != 0, idx - 1 >= me.er)
+            want_prop = U('POSIX_PROPERTY', U('posix_name', Int(1)), Bool(me.isb))
+            app_ok = z3.And(z3.BoolVal(len(app) == 1), pyvc.to_obj(app[0]) == want_prop.t) if len(app) == 1 else z3.BoolVal(False)
+            if st_ is None:
+                esc = z3.Not(pending)
+            else:
+                key, val = st_
+                esc = z3.And(pending, pyvc.eq(key, Int(-1)), z3.BoolVal(val.kind == 'str'), val.t == z3.Concat(z3.StringVal('\\'), me.last) if val.kind == 'str' else z3.BoolVal(False))
+            return z3.And(rx_ok, T(c.ret), idx > me.i0, app_ok, esc)
+        return [('WcParse._handle_posix.true_iff_a_POSIX_class_stands_at_the_index;its_class_text_for_the_parsers_string_type_is_appended;a_pending_range_hyphen_is_escaped_first', ('C01', 'C18', 'C10'), post)]
+
+
+ALL_SEQ = [SequenceRangeCheck(), HandlePosix()]
 
 ALL_EXP = [IterPatternsFn(), IterPatternsSeq(), IterPatternsBytes(), TildePos(), TildePosBytes(), ExpandBraces(), EscapeFn(), EscapeFnBytes()]
 
